@@ -337,6 +337,13 @@ MULTI: List[Tuple[str, List[Tuple[str, str]], List[str]]] = [
     ("two reserved names", [("class Color(Enum):", "class Class(Enum):"),
                             ("Default_name: str = constant_str", "While: str = constant_str")],
      ["'Class'", "'While'"]),
+    # a reserved type name and a reserved member name in the *same* class: two independent errors
+    ("reserved name of a class and of its property", [("class Named(DBC):", "class Object(DBC):"),
+                                                       ("class Item(Named):", "class Item(Object):"),
+                                                       ("    name: str\n", "    type_name: str\n"),
+                                                       ("    def __init__(self, name: str) -> None:\n        self.name = name",
+                                                        "    def __init__(self, type_name: str) -> None:\n        self.type_name = type_name")],
+     ["'Object'", "'type_name'"]),
 ]
 
 
